@@ -407,9 +407,15 @@ def run_case(ctx, case):
       isinstance(v, float) for v in list(raw_num.values()) +
       list(raw_den.values())):
     exact = False    # Python's float * Fraction is a (rounded) float
-  if samples != "sym":
+  numeric_recursion_start = (zspec != "Z" and mkind == "none" and
+                             len(raw_den) > 1)
+  if samples != "sym" or numeric_recursion_start:
     # numeric samples go through Python's own arithmetic: exact only with
-    # integer coefficients, a gain of +-1 (no true division) and no float zero
+    # integer coefficients, a gain of +-1 (no true division) and no float zero.
+    # The same holds for symbolic samples when the recursion starts from a
+    # NUMERIC zero value (no memory given): until an input sample enters - never
+    # with an all-zero numerator - the fed-back outputs are plain numbers whose
+    # mantissas grow with every step (thorough seed 33)
     coeffs = list(raw_num.values()) + list(raw_den.values())
     exact = (all(isinstance(v, int) and not isinstance(v, bool)
                  for v in coeffs) and g in (1, -1)
